@@ -15,6 +15,12 @@ NA = {
 }
 
 CHECKS = {
+    "C09": dict(
+        text="Seeded search over job histories of homogeneous problems: displacement patch tests (affine map on the whole boundary) and the uniaxial / biaxial load cases on every generated element family (hex 8/20/27, quad 4/8/9, tri 3/6, tet 4/10), mesh densities, interior distortion (curved edges in 2D), 3D and plane strain, nine hyperelastic material variants incl. the nearly-incompressible body, seeded ramp subdivisions (uniform, non-uniform, repeated, cyclic, load-unload), twin jobs with another subdivision, exact or inexact (1e-12..1e-3) linear solves. At every converged substep the displacement field is compared with the affine map, F with uniformity, job.x with the ramp, job.y with analytic P11*A0 from independently coded energy functions; recorded history must stay immutable. Sampling, not proof.",
+        note="Trusted: the analytic model in fesim/refmodel.py (energies coded from textbook forms, stresses by central differences of the energy, lateral stretch by bracketing root search), numpy/scipy. Real: Job/CharacteristicCurve/Step/Newton/regions/elements/materials. Simulated: solver inexactness, ramp subdivision histories. Tolerances are converged-state tolerances scaled with the Newton tolerance.",
+        technique="deterministic simulation of load histories (ramp subdivisions, inexact solver faults, twin runs) against an analytic homogeneous-solution reference model",
+        ref="DESIGN.md section 7 (C09)",
+    ),
     "C03": dict(
         text="Seeded search over call histories of every constitutive object that constructs offline (hand-coded Neo-Hooke family, volumetric, linear-elastic large-strain, Ogden-Roxburgh hand-coded and tensortrax, small-strain plasticity, finite-strain viscoelasticity, 14 tensortrax hyperelastic models, composite, NearlyIncompressible and ThreeFieldVariation wrappers): a material-point machine drives trial(F) / commit / reject sequences along monotone, cyclic and random strain paths incl. rejected excursions; the same monitors sit between body and material inside FE job histories. At every call: elasticity blocks (all six for mixed formulations) vs central differences of the stress at the same committed state (kink rule, max-history band), stress vs central differences of the energy where exposed, inputs (committed state variables!) byte-identical afterwards, repeated call idempotent, dirty reused out= buffers without influence. Sampling, not proof. jax models are not exercised in the quick tier.",
         note="Trusted: FD oracle at 2e-6 relative (calibrated), numpy. Real: felupe.constitution, tensortrax. Simulated: the call history and buffer reuse protocol; FE runtime in job mode. For stateless models the derivative clause is input sampling (stated in evidence).",
